@@ -21,7 +21,9 @@ META = {
   "*_other_handle_excluded: at the first segment access of an operation the other process runs an operation through the other handle, whose p_shm_lock must block",
   "oom_second_open_keeps_existing_buffer: script of harness/C20_ipc.c (shared with C18/C20) with a live first handle holding data; the allocator fails at a symbolic request index of the second p_shm_buffer_new",
   "shmbuffer_reentrant / shmbuffer_names: see C07 reentrant_* and C06 names_len*_realkey",
-  "allocator fails only in oom_* (rest: C18), no EINTR (C19), printf empty"],
+  "*_other_holds_lock_eintr2: the other handle's process holds the segment lock; sem_wait of this handle's operation fails with EINTR at a symbolic subset (<=2) of its invocations; "
+  "a correct operation keeps waiting (path ends in the model), any segment access or completion is a violation",
+  "allocator fails only in oom_* (rest: C18), EINTR only in *_eintr2 (rest: C19), printf empty"],
  "outside": ["ring moduli above 9 (quick) / 17 (thorough) in step_*, capacities above 4 in hist_* (the arithmetic is modulus generic)",
              "interleavings of concurrent readers/writers inside one operation: atomicity is reduced to 'every segment access happens with the PShm lock held and the lock is "
              "released on every exit path' (step_*) plus the lock's mutual exclusion (C07)",
@@ -49,14 +51,15 @@ def step(op, mmax):
              bounds={"ring_modulus": "2..%d (symbolic)" % mmax, "len": "any 64-bit value", "pre_state": "any read_pos, write_pos < modulus, any bytes",
                      "lock_failure": "symbolic"})
 OPC = {"w": 0, "r": 1, "c": 2, "f": 3, "u": 4}
-def hist(seq, start, smax, demo=False, nest=False):
+def hist(seq, start, smax, demo=False, nest=False, locked=False):
     memmax = smax + 18
     uw = dict(UW, **{"vm_memcpy.0": memmax + 1, "vm_memset.0": memmax + 1, "harness.0": len(seq) + 1})
+    if locked: uw["p_semaphore_acquire.0"] = 4
     uw.update({"do_op.0": smax + 3, "do_op.1": smax + 3, "do_op.2": smax + 3, "vm_mem_access.0": 8})
     cross = any(a == "w" and b == "r" and (j - i) % 2 == 1 for i, a in enumerate(seq) for j, b in enumerate(seq) if j > i)
-    return Q("hist_%s_h%d_s%d%s%s" % (seq, start, smax, "_kfdemo" if demo else "", "_other_handle_excluded" if nest else ""), "harness/C08_hist.c", units=HIST_UNITS, models=KM,
+    return Q("hist_%s_h%d_s%d%s%s" % (seq, start, smax, "_kfdemo" if demo else "", "_other_handle_excluded" if nest else "") + ("_other_holds_lock_eintr2" if locked else ""), "harness/C08_hist.c", units=HIST_UNITS, models=KM,
              hdefs=["OPS=" + ",".join(str(OPC[c]) for c in seq), "START=%d" % start, "SMAX=%d" % smax, "VK_PAGE=16", "VK_NPAGES=2", "VK_NSHM=2",
-                   "VM_MEMMAX=%d" % memmax] + (["KF_DEMO_SMALLER"] if demo else []) + (["EXPECT_CROSS"] if cross else []) + (["NEST"] if nest else []),
+                   "VM_MEMMAX=%d" % memmax] + (["KF_DEMO_SMALLER"] if demo else []) + (["EXPECT_CROSS"] if cross else []) + (["NEST"] if nest else []) + (["LOCKED_BY_OTHER", "EINTR_MAX=2"] if locked else []),
              includes=["models/redir_ipc.h"], unwindset=uw, timeout=1500, funcs=FUNCS + ["p_shm_new", "p_shm_lock", "p_shm_unlock"],
              kf="C08_smaller_size" if demo else None,
              bounds={"operations": seq, "first_handle": start, "capacity": "1..%d" % smax, "second_size_argument": "0..%d" % (smax + 2),
@@ -83,6 +86,6 @@ def reentrant(tier):
 def queries(tier):
     if tier == "quick":
         return names(tier) + reentrant(tier) + [oom_open_existing()] + [step(op, 9) for op in range(5)] + \
-               [hist("wr", 0, 4), hist("wr", 1, 4), hist("wwr", 0, 4), hist("wcu", 1, 4), hist("wfr", 1, 4), hist("w", 0, 4, nest=True), hist("r", 1, 4, nest=True), hist("w", 1, 4, demo=True)]
+               [hist("wr", 0, 4), hist("wr", 1, 4), hist("wwr", 0, 4), hist("wcu", 1, 4), hist("wfr", 1, 4), hist("w", 0, 4, nest=True), hist("r", 1, 4, nest=True), hist("w", 0, 4, locked=True), hist("r", 1, 4, locked=True), hist("w", 1, 4, demo=True)]
     seqs = [a + b for a in "wrcfu" for b in "wrcfu" if "w" in a + b] + ["wwr", "wrw", "wrr", "wcw", "wwc"]
-    return names(tier) + reentrant(tier) + [oom_open_existing()] + [step(op, 17) for op in range(5)] + [hist(s, st, 4) for s in seqs for st in (0, 1)] + [hist(o, st, 4, nest=True) for o in "wrcfu" for st in (0, 1)] + [hist("w", 1, 4, demo=True)]
+    return names(tier) + reentrant(tier) + [oom_open_existing()] + [step(op, 17) for op in range(5)] + [hist(s, st, 4) for s in seqs for st in (0, 1)] + [hist(o, st, 4, nest=True) for o in "wrcfu" for st in (0, 1)] + [hist(o, st, 4, locked=True) for o in "wrcfu" for st in (0, 1)] + [hist("w", 1, 4, demo=True)]
